@@ -345,6 +345,9 @@ impl<'a, 'tcx> Cx<'a, 'tcx> {
                     o = o.fs("text", s);
                     // small constant tables (arrays of integers / field-less enums, also behind a
                     // reference as promoted constants are): their bytes, so that rules can read the table
+                    if let Some(v) = self.const_unit_variant(c, ty) {
+                        o = o.fs("variant", v);
+                    }
                     if let Some((bytes, elem, n)) = self.const_table(c, ty) {
                         o = o
                             .f("bytes", J::Arr(bytes.iter().map(|b| J::Num(*b as i128)).collect()))
@@ -355,6 +358,56 @@ impl<'a, 'tcx> Cx<'a, 'tcx> {
             }
         }
         o.done()
+    }
+
+    /// a constant of a field-less enum type (also behind a reference, as promoted constants are):
+    /// the name of the variant it denotes
+    fn const_unit_variant(&self, c: &ConstOperand<'tcx>, ty: Ty<'tcx>) -> Option<String> {
+        use rustc_middle::mir::ConstValue;
+        let tcx = self.tcx;
+        let (ety, by_ref) = match ty.kind() {
+            ty::Ref(_, inner, _) => (*inner, true),
+            _ => (ty, false),
+        };
+        let adt = match ety.kind() {
+            ty::Adt(def, _) if def.is_enum() && def.variants().iter().all(|v| v.fields.is_empty()) => *def,
+            _ => return None,
+        };
+        let size = tcx.layout_of(self.typing_env.as_query_input(ety)).ok()?.size.bytes();
+        if size == 0 || size > 8 {
+            return None;
+        }
+        let val = c.const_.eval(tcx, self.typing_env, c.span).ok()?;
+        let bits: u128 = match val {
+            ConstValue::Scalar(rustc_middle::mir::interpret::Scalar::Int(si)) if !by_ref => si.to_bits(si.size()),
+            ConstValue::Scalar(rustc_middle::mir::interpret::Scalar::Ptr(ptr, _)) if by_ref => {
+                let (prov, off) = ptr.into_raw_parts();
+                let mem = match tcx.global_alloc(prov.alloc_id()) {
+                    rustc_middle::mir::interpret::GlobalAlloc::Memory(m) => m,
+                    _ => return None,
+                };
+                let start = off.bytes() as usize;
+                let end = start + size as usize;
+                let inner = mem.inner();
+                if end > inner.len() {
+                    return None;
+                }
+                let bytes = inner.inspect_with_uninit_and_ptr_outside_interpreter(start..end);
+                let mut v: u128 = 0;
+                for (i, b) in bytes.iter().enumerate() {
+                    v |= (*b as u128) << (8 * i);
+                }
+                v
+            }
+            _ => return None,
+        };
+        let mask: u128 = if size >= 16 { u128::MAX } else { (1u128 << (8 * size)) - 1 };
+        for (idx, d) in adt.discriminants(tcx) {
+            if d.val & mask == bits & mask {
+                return Some(adt.variant(idx).name.to_string());
+            }
+        }
+        None
     }
 
     fn const_table(&self, c: &ConstOperand<'tcx>, ty: Ty<'tcx>) -> Option<(Vec<u8>, String, u64)> {
